@@ -117,7 +117,7 @@ def build_measurement(measurementspec, modifiertypes):
         "Measurement",
         Name=name,
         Lumi=str(lumi),
-        LumiRelErr=str(lumierr),
+        LumiRelErr=str(lumierr / lumi),
         ExportOnly=str(True),
     )
     poiel = ET.Element('POI')
